@@ -335,6 +335,9 @@ class Gen:
                 E = self.rot(); rp = [self.dy(-0.5, 0.5) for _ in range(3)]
                 k = min(r.randint(1, 6), max_rows - rows)
                 axes_idx = r.sample(range(6), k)
+                if max_rows - rows >= 3 and r.random() < 0.45:
+                    # all three translations locked, no rotational row: outside the open findings D8a / D8b
+                    k = 3; axes_idx = [3, 4, 5]; self.count("calls", "loop_translation_lock")
                 off = [Fr(0)] * 3
                 for t in range(3):
                     if (3 + t) not in axes_idx and r.random() < 0.5: off[t] = self.dy(-0.5, 0.5)
